@@ -1418,6 +1418,7 @@ package analysis
 //@   ensures allInline(parameters) ==> forall i in 0..len(parameters) :: mapKeyFromParam(parameters[i]) in dom(res) && (exists j in i..len(parameters) :: res[mapKeyFromParam(parameters[i])] == parameters[j] && mapKeyFromParam(parameters[j]) == mapKeyFromParam(parameters[i]))
 //@   ensures allInline(parameters) ==> forall k in dom(res) :: old(k in dom(res)) && res[k] == old(res[k]) || (exists i in 0..len(parameters) :: k == mapKeyFromParam(parameters[i]))
 //@   loop 1: modifies map res
+//@   loop 1: invariant old(callmeOnError) != nil ==> callmeOnError == old(callmeOnError)
 //@   loop 1: invariant forall k in dom(res) :: (old(k in dom(res)) && res[k] == old(res[k])) || (exists i in 0..idx :: entryFor(s, parameters[i], k, res[k]))
 //@   loop 1: invariant forall k string :: old(k in dom(res)) ==> k in dom(res)
 //@   loop 1: invariant allInline(parameters) ==> forall i in 0..idx :: mapKeyFromParam(parameters[i]) in dom(res) && (exists j in i..idx :: res[mapKeyFromParam(parameters[i])] == parameters[j] && mapKeyFromParam(parameters[j]) == mapKeyFromParam(parameters[i]))
